@@ -51,6 +51,13 @@ TB_COMMON = ["rustc/cargo as installed", "libsodium 1.0.18 built from the vendor
 PROPS = {}
 
 
+def _rel(monitor):
+    """the monitor once more in a plain release build (tiny corpus in the quick tier, quick corpus in the thorough tier) (no debug assertions, no overflow
+    checks): code whose behaviour differs between the profiles (side effects inside debug_assert!, wrapping arithmetic)"""
+    return lambda tier: [dict(build="st-rel", monitor=monitor, tier=("quick" if tier == "thorough" else "tiny"))]
+
+
+
 def _ASAN(monitor):
     def fn(ctx):
         return _asan(monitor)(ctx)
@@ -86,7 +93,7 @@ PROPS["C07"] = dict(
                "digest/key length pairs and on adversarial Poly1305 operands, and each output is compared with two independent references. "
                "Exploration is the honest level: the input space is unbounded, the run samples it densely at the block boundaries.",
     level_note="Trusts libsodium 1.0.18 and the vector-pinned Python models as specifications; a disagreement between the two references is reported as inconclusive, never as a violation.",
-    runs=lambda tier: [dict(build="st", monitor="c07")],
+    runs=lambda tier: [dict(build="st", monitor="c07")] + _rel("c07")(tier),
     offline=offline.check_c07,
     models=["poly1305", "chacha20", "salsa20", "siphash"],
     floors=_c07_floors,
@@ -122,7 +129,7 @@ PROPS["C08"] = dict(
                "11 incremental interfaces, plus seeded random k-way partitions of messages up to 16 KiB; the split enumeration is exhaustive "
                "within its bounds, which reach every (buffer fill, piece class) state of the 16- and 128-byte block buffers; beyond the bounds it is sampling. A parameter-agreement family compares incremental and one-shot generic hash over key lengths {none, 0..128} x digest lengths {0..65} (accepted and refused alike) and the verification decision of incremental and one-shot MACs when the authenticator is handed over in a Vec of exact length or longer than the MAC.",
     level_note="Message contents are one seeded random string per length; the one-shot value is additionally pinned to libsodium.",
-    runs=lambda tier: [dict(build="st", monitor="c08")] + ([dict(kind="custom", fn=_MIRI("c08"))] if tier == "thorough" else []),
+    runs=lambda tier: [dict(build="st", monitor="c08")] + _rel("c08")(tier) + ([dict(kind="custom", fn=_MIRI("c08"))] if tier == "thorough" else []),
     floors=_c08_floors,
     rule="a case is one (interface, message length, partition) triple; distinct = distinct (interface, length, first cut) enumeration cells / random draws; "
          "non-trivial = at least two pieces; quick: L2=400, L3=140 (signing 150/30); thorough: L2=1100, L3=300 (signing 400/70)",
@@ -179,7 +186,7 @@ PROPS["C05"] = dict(
                "box precomputation and key-exchange session keys (classic + object API) are compared with libsodium including its refusals. Every one-bit neighbour (256 per encoding) and random one-byte neighbours of every special encoding and of the base point are multiplied as well, peers are constructed so that the shared secret has repeating / cancelling / mostly-zero words, and the object-API sessions must derive libsodium's keys for every special and random peer encoding (not only take the same accept/refuse decision). The scalar/point "
                "space is 2^512, so this is exploration: dense on the special encodings, sampled elsewhere.",
     level_note="Where libsodium returns -1 (block-listed input or all-zero result) the RFC 7748 value is all-zero; the Python ladder arbitrates those cases offline.",
-    runs=lambda tier: [dict(build="st", monitor="c05"), dict(build="ni", monitor="c05", opts=NI_ONLY)],
+    runs=lambda tier: [dict(build="st", monitor="c05"), dict(build="ni", monitor="c05", opts=NI_ONLY)] + _rel("c05")(tier),
     offline=offline.check_c05,
     models=["x25519", "salsa20"],
     floors=_c05_floors,
@@ -212,7 +219,7 @@ PROPS["C06"] = dict(
                "verification decisions of every entry point are compared with libsodium on all single-bit mutations (exhaustively on a subset of cases), the full S+kL family, "
                "equation-valid forgeries built on all 14 small-order / non-canonical encodings as A and as R, and mode cross-overs. The forgeries are equation-valid in the mode they are presented in (pure and pre-hashed challenge), include small-order A together with small-order R and S = 0, and mixed-order keys A + T in both modes. Seeds and messages are sampled.",
     level_note="This libsodium build is the default (non ED25519_COMPAT) one; its decision is the specification the property names. The Python RFC 8032 model re-checks a sample.",
-    runs=lambda tier: [dict(build="st", monitor="c06")],
+    runs=lambda tier: [dict(build="st", monitor="c06")] + _rel("c06")(tier),
     offline=offline.check_c06,
     models=["ed25519"],
     floors=_c06_floors,
@@ -252,7 +259,7 @@ PROPS["C01"] = dict(
                "containers) are run on every message length 0..=320 (quick) / 0..=1100 (thorough) plus multi-KiB lengths with seeded keys including all-zero/all-0xff keys and nonces; "
                "each ciphertext must equal libsodium's bytes and each libsodium ciphertext must open. Keys, nonces and contents are sampled; lengths are enumerated.",
     level_note="libsodium is the specification named by the property; sealed boxes are checked by libsodium opening them and by re-deriving nonce = BLAKE2b-24(epk||rpk).",
-    runs=lambda tier: [dict(build="st", monitor="c01"), dict(build="ni", monitor="c01", opts=NI_ONLY)],
+    runs=lambda tier: [dict(build="st", monitor="c01"), dict(build="ni", monitor="c01", opts=NI_ONLY)] + _rel("c01")(tier),
     offline=offline.check_c01,
     models=["salsa20", "poly1305", "x25519"],
     floors=_c01_floors,
@@ -291,7 +298,7 @@ PROPS["C02"] = dict(
                "completely, message lengths are 8 boundary lengths (quick) or 0..=96 + {255,256,257,1024} (thorough). Box public/secret key bits are not flipped (X25519 ignores bit 255 and clamps "
                "5 scalar bits, so those are not corruptions of the shared key); the sealed-box ephemeral key is. Truncated and extended ciphertexts are presented twice to the copying forms: with an output buffer sized from the wire and with one sized for the genuine message. In-place forms are also driven as trial decryption (wrong key first, then the right key on the same buffer); caller buffers start at every alignment mod 8; earlier stream messages carry varied tag bytes and an authentic earlier message that is refused is itself a violation.",
     level_note="Keys and message contents are sampled once per authentic message; the enumeration over corruptions is exhaustive.",
-    runs=lambda tier: [dict(build="st", monitor="c02"), dict(build="ni", monitor="c02", opts=NI_ONLY)],
+    runs=lambda tier: [dict(build="st", monitor="c02"), dict(build="ni", monitor="c02", opts=NI_ONLY)] + _rel("c02")(tier),
     floors=_fault_floors("C02"),
     exhaustive=True,
     rule=_FAULT_RULE,
@@ -305,7 +312,7 @@ PROPS["C17"] = dict(
     level_text="Same exhaustive single-corruption family as C02; after every rejected open the caller-visible message buffer (copying forms: pre-filled with a zero-free sentinel; in-place forms: the "
                "tampered input itself) and the stream tag output are inspected byte by byte under the most permissive reading of 'left as they were or zeroed'. Caller buffers start at every alignment mod 8 (slots inside a larger allocation); length-changing corruptions are also presented with a buffer sized for the genuine message; in-place forms are also driven as trial decryption; the set of error texts per entry point and wire length must stay small (an error text that varies with the rejected bytes is a release).",
     level_note="A leaked keystream-XORed byte escapes the per-byte test only if it happens to equal the sentinel byte or zero (probability 2/256 per byte); over the enumerated family a leak of any length is caught essentially always.",
-    runs=lambda tier: [dict(build="st", monitor="c17"), dict(build="ni", monitor="c17", opts=NI_ONLY)],
+    runs=lambda tier: [dict(build="st", monitor="c17"), dict(build="ni", monitor="c17", opts=NI_ONLY)] + _rel("c17")(tier),
     floors=_fault_floors("C17"),
     exhaustive=True,
     rule=_FAULT_RULE,
@@ -335,7 +342,7 @@ PROPS["C03"] = dict(
                "each started from the four counter classes (1, mid-range, 0xfffffffe, 0xffffffff via the verif_hooks state constructor) and run through the classic functions or DryocStream; "
                "24 000 histories quick, 800 000 thorough. The history space is unbounded, so this is exploration with a coverage floor on every wrong-delivery kind before and after a rekey.",
     level_note="libsodium's public state struct (k, nonce) is compared with dryoc's hooked state after every operation; a wrong delivery that libsodium would accept is treated as a harness fault.",
-    runs=lambda tier: [dict(build="st", monitor="c03")],
+    runs=lambda tier: [dict(build="st", monitor="c03")] + _rel("c03")(tier),
     offline=offline.check_c03,
     models=["chacha20", "poly1305", "secretstream"],
     floors=_c03_floors,
@@ -448,7 +455,7 @@ PROPS["C13"] = dict(
     level_text="Box seeds of every length 0..=128 (zeros, 0xff, random), kx and signing seeds, secret keys including unclamped/all-ones ones, password-derived key pairs at minimum cost with salts of 8..64 bytes and "
                "Config hash lengths other than 32, and Ed25519-to-X25519 conversion of honest pairs are compared with libsodium; the converted pair must be self-consistent. Seeds are sampled, seed lengths enumerated.",
     level_note="For inputs libsodium's API cannot take (seed length != 32, salt length != 16) the reference is the documented construction computed from libsodium primitives, plus the independent Python model.",
-    runs=lambda tier: [dict(build="st", monitor="c13")],
+    runs=lambda tier: [dict(build="st", monitor="c13")] + _rel("c13")(tier),
     offline=offline.check_c13,
     models=["x25519", "ed25519", "argon2"],
     floors=_c13_floors,
@@ -480,7 +487,7 @@ PROPS["C09"] = dict(
                "non-multiples of 4 KiB and sizes whose segment length is not a multiple of 128, salts of 8..=64 bytes, and seeded random combinations; each output equals libsodium's. "
                "Out-of-range output/salt lengths and costs must be rejected; PwHash::verify must accept the right and reject altered passwords. The parameter space is sampled on a grid, hence exploration.",
     level_note="libsodium's public function refuses Argon2i with t<3 and salts != 16 bytes; those cells use libsodium's internal Argon2 core (same code path its public function calls) and the independent Python model (m<=64 KiB, t<=3).",
-    runs=lambda tier: [dict(build="st", monitor="c09", timeout=(300 if tier == "quick" else 3000))],
+    runs=lambda tier: [dict(build="st", monitor="c09", timeout=(300 if tier == "quick" else 3000))] + _rel("c09")(tier),
     offline=offline.check_c09,
     models=["argon2"],
     floors=_c09_floors,
@@ -508,7 +515,7 @@ PROPS["C10"] = dict(
                "(right and wrong password) and decode-and-recompute; libsodium / harness-built string (both algorithms, salt 8..64 bytes, hash 16..128 bytes) -> dryoc verify, parse, re-encode (must be identical) "
                "and needs_rehash (false exactly when both costs match, for five cost variations per string). A parse-only family (no hashing) covers m and t over the whole u32 range, both algorithms: parse -> re-encode must be the identity and needs_rehash must follow the rule (cross-checked with libsodium's needs_rehash). Sampled inputs, hence exploration.",
     level_note="libsodium's decoder sizes its buffers from strlen, so its verdict is available for non-default salt/hash lengths too; the needs-rehash rule is cross-checked against libsodium on standard strings.",
-    runs=lambda tier: [dict(build="st", monitor="c10")],
+    runs=lambda tier: [dict(build="st", monitor="c10")] + _rel("c10")(tier),
     floors=_c10_floors,
     rule="a case is one password-hash string with its password and origin; distinct by generated index; every case performs hashing",
     assumptions=["costs are kept small (the property quantifies over the accepted range at small cost)"],
